@@ -48,9 +48,9 @@ def fill(P):
       "Validators / frozen-ness / derived fields are pydantic-mediated, completeness of == (equal weights => equal) is bounded: check over all orders of <=3 ballots from 12 contents.",
       "PreferenceProfile(...) constructor is an assumed contract (A-PYD); idempotence and order-independence of condensing are bounded (they follow mathematically from the proved clauses, no machine-checked lemma).", "DESIGN.md 4-C11, 8.2")
     P("C12", "other",
-      "contract-based deductive verification of remove_cand (list and str argument on profiles), add_missing_cands, cleaning.remove_empty_ballots and condense_ballots + bounded run-time contract check of all editing utilities",
+      "contract-based deductive verification of remove_cand (list and str argument, on profiles and on ballot tuples), add_missing_cands, cleaning.remove_empty_ballots and condense_ballots + bounded run-time contract check of all editing utilities",
       "remove_cand / add_missing_cands are proved as weight-preserving pushforwards: for every ranking k the result carries exactly the weight of the input ballots whose edited ranking is k; "
-      "tuple / single-ballot forms of remove_cand, the other cleaning functions (map / groupby / reduce) and expand_tied_ballot (itertools.permutations) are bounded only.", "", "DESIGN.md 4-C12, 8.2")
+      "the single-ballot form of remove_cand, the other cleaning functions (map / groupby / reduce) and expand_tied_ballot (itertools.permutations) are bounded only.", "", "DESIGN.md 4-C12, 8.2")
 
     B = "bounded run-time contract check of the real code (B-SSE), labelled bounded, never counted as proved"
     P("C07", "exploration", "bounded exhaustive evaluation of the solid-coalition axiom on real STV counts (lemma over contracts not finished)",
